@@ -28,10 +28,13 @@ pub async fn handle_did_open_text_document(
     let (uri, session) = state.uri_and_session_from_workspace(&params.text_document.uri)?;
     state.documents.handle_open_file(&uri).await;
 
-    send_new_compilation_request(state, session.clone(), &uri, None, false, sync_workspace);
+    // Mark the compilation as running before the request is sent. If the flag was set after
+    // sending, the compilation thread could finish the whole compilation (and reset the flag)
+    // in between, leaving the flag set forever.
     #[cfg(fuellabs_sway_verif)]
     crate::verif::point("T:open_set_compiling");
     state.is_compiling.store(true, Ordering::SeqCst);
+    send_new_compilation_request(state, session.clone(), &uri, None, false, sync_workspace);
     state.wait_for_parsing().await;
     state
         .publish_diagnostics(uri, params.text_document.uri, session)
